@@ -25,15 +25,12 @@ def all_storage_facts():
 
 
 DRV_FACT_NAMES = ["rejectsEmptyKey", "rejectsLongKey", "flushCmp", "flushAtCount", "deleteRemoves", "validatesCrc", "validatesULen",
-                  "boundsCompressedSize", "boundsDecodedLen", "parseConsumesAll", "shortPayloadIsEOF", "chronSurfacesError", "openCutsTornTail", "v2Fallback", "rejectsLongName"]
+                  "boundsCompressedSize", "boundsDecodedLen", "parseConsumesAll", "shortPayloadIsEOF", "chronSurfacesError", "apiValidatesKeys", "apiBoundsNameLength", "tuiListsAll", "openCutsTornTail", "v2Fallback", "rejectsLongName"]
 
 
 def drv_args(own_facts):
     allf = all_storage_facts()
     allf.update(own_facts)
-    # the model's flag means "the API caller learns about a refused key": by Write itself or by validation above it
-    if allf.get("apiValidatesKeys") == "yes":
-        allf["chronSurfacesError"] = "yes"
     return ["%s=%s" % (k, allf.get(k, "unknown")) for k in DRV_FACT_NAMES]
 
 
@@ -141,8 +138,25 @@ def history_oracle(ops, impl, api_validates=False):
     Returns a list of (line index, what, signature-or-None)."""
     bad = []
     o = HistoryOracle()
+    api_acked = {}
     for i, (op, rep) in enumerate(zip(ops, impl)):
         f = op.split(" ")
+        if f[0] == "aset":
+            if rep == "ok":
+                api_acked[(f[1], f[2], f[3])] = i
+            continue
+        if f[0] == "aget":
+            # whatever the gateway acknowledged must still be there after the restart
+            if (f[1], f[2], f[3]) in api_acked and rep != "found":
+                sig = "C01-api-acks-unstorable-name" if int(f[1]) > 65535 else "C01-chronicler-drops-refused-entry"
+                bad.append((i, "Set on a swamp name of %s bytes with a key of %s bytes was acknowledged, after a restart Get says `%s`"
+                            % (f[1], f[2], rep), sig))
+            continue
+        if f[0] == "arpc":
+            if rep == "ok" and int(f[2]) > 65535:
+                bad.append((i, "%s acknowledged a key of %s bytes, which the storage format cannot carry" % (f[1], f[2]),
+                            "C01-chronicler-drops-refused-entry"))
+            continue
         if f[0] == "case":
             o = HistoryOracle()
         elif f[0] == "cfg":
